@@ -43,6 +43,10 @@ func init() {
 		directed{"in_receiver", "lbtc", []string{"request", "legacy_restart", "otb", "tx_confirmed"}},
 		directed{"out_sender", "lbtc", []string{"start", "out_agreement", "otb", "legacy_restart", "tx_confirmed"}},
 		directed{"in_receiver", "lbtc", []string{"request", "otb", "legacy_restart", "tx_confirmed", "restart"}},
+	)
+	// the record of an old release stopped in the paying state: C13's own scenarios (the crash-observer
+	// correspondence of other properties does not describe a restart from a record rewritten between steps)
+	registerDirectedFor("C13",
 		directed{"out_sender", "lbtc", []string{"start", "out_agreement", "otb", "legacy_restart_pay"}},
 		directed{"in_receiver", "lbtc", []string{"request", "otb", "legacy_restart_pay", "restart"}},
 		directed{"out_sender", "btc", []string{"start", "out_agreement", "otb", "legacy_restart_pay"}},
